@@ -56,7 +56,9 @@ func initialRegistry() *regState {
 func lim(n int64) *int64 { return &n }
 
 // baseHistories are the fixed shapes for which every fault position is enumerated.
-func baseHistories() []history {
+// The quick tier enumerates all of them for Provider and one each for the other two kinds.
+func baseHistories(thorough bool) []history {
+	quickOnly := map[string]string{"Configuration": "manual-activation", "Function": "limit-zero-then-lowered"}
 	v1, v2, v3, v4, b1 := sources[0], sources[1], sources[2], sources[3], sources[4]
 	hs := []history{
 		{Name: "upgrade-rollback-auto", Steps: []step{
@@ -104,6 +106,9 @@ func baseHistories() []history {
 	var out []history
 	for _, k := range kinds {
 		for _, h := range hs {
+			if want, ok := quickOnly[k.Kind]; ok && !thorough && h.Name != want {
+				continue
+			}
 			h.Kind = k.Kind
 			h.Name = k.Kind + "-" + h.Name
 			out = append(out, h)
